@@ -312,6 +312,19 @@ func enumerate(s seedFile, rng *rand.Rand, quick bool, emit func(testCase)) {
 		for k := 0; k <= len(s.data); k += estep {
 			emit(testCase{dec, modeErrAt, k, s.data, fmt.Sprintf("%s/read-error@%d", s.name, k)})
 		}
+		// streaming readers called again after an error: one transient read error before byte k,
+		// a permanent one, and every truncation
+		if rd, ok := retryOf[dec]; ok {
+			for k := 0; k <= len(s.data); k += step {
+				emit(testCase{rd, modeTransientAt, k, s.data, fmt.Sprintf("%s/transient-read-error@%d", s.name, k)})
+			}
+			for k := 0; k <= len(s.data); k += estep {
+				emit(testCase{rd, modeErrAt, k, s.data, fmt.Sprintf("%s/read-error@%d", s.name, k)})
+			}
+			for n := 0; n < len(s.data); n += estep {
+				emit(testCase{rd, modePlain, 0, s.data[:n], fmt.Sprintf("%s/truncate@%d", s.name, n)})
+			}
+		}
 		// every single-field corruption (text tokens; for binary PLY the header tokens)
 		limit := len(s.data)
 		if !s.text {
@@ -502,6 +515,9 @@ func randomStructured(rng *rand.Rand, seeds []seedFile, n int, emit func(testCas
 		dec := s.decoders[rng.Intn(len(s.decoders))]
 		if rng.Intn(10) == 0 {
 			dec = rng.Intn(len(decoderNames))
+		}
+		if rd, ok := retryOf[dec]; ok && rng.Intn(4) == 0 {
+			dec = rd
 		}
 		emit(testCase{dec, modePlain, 0, d, fmt.Sprintf("random/%s#%d", s.name, i)})
 	}
